@@ -35,7 +35,7 @@ MANIFEST = dict(
          "information model's step - the theorems are about the source text as it is now. log_integrate_log_trap, "
          "_NSIntegralState.finalise and .log_posterior_weights are translated too (harness/pylogvec2lean.py -> Gen/Trapezoid.lean) and "
          "trapezoid_source_eq_model / finalise_source_eq_model / posterior_weights_source_eq_model prove them equal to the model's "
-         "trap, St.finalise and St.postW for every vector. "
+         "trap, St.finalise and St.postW for every vector; get_logx_live_points (both expectations) is translated as well and logx_live_source_eq_model proves it equal to St.logxLive. "
          "INFORMATION AND UNCERTAINTY (Model/Information.lean, the recursion of increment with the logarithm as a parameter): "
          "for every logarithm function, ordered field and length >= 2 the accumulated value is the textbook information "
          "H = sum p_i lg L_i - lg Z (info_eq_textbook); over R, H >= -log(1 - X_N) >= 0 by Gibbs' inequality, hence "
@@ -107,6 +107,11 @@ def gen_trapezoid(ctx):
                   self_attrs=attrs, calls=calls, **common),
         V.VecSpec(source="nessai/evidence.py", cls="_NSIntegralState", func="log_posterior_weights", name="log_posterior_weights",
                   params=[], result="List K", self_attrs=attrs, calls=calls, **common),
+        # the volumes of the remaining live points: logw + cumsum of the shrinkages for nlive, nlive-1, …, 1; `expectation` stands
+        # for self.expectation.lower(); neither spelling -> the local `logt` is unbound (UnboundLocalError: `none`)
+        V.VecSpec(source="nessai/evidence.py", cls="_NSIntegralState", func="get_logx_live_points", name="get_logx_live_points",
+                  params=[("nlive", "nlive", V.NAT)], result="Option (List K)", uses_ex=True,
+                  self_attrs={"logw": ("logw", V.LOG), "expectation": ("expectation", V.STR)}, **common),
     ]
     parts, infos = [], {}
     try:
@@ -124,7 +129,7 @@ def gen_trapezoid(ctx):
             "/-\nGENERATED by harness/pylogvec2lean.py (harness/c02.py gen_trapezoid) from the CURRENT nessai source — do not edit.\n"
             "C02: trapezoidal evidence and posterior weights, log vectors -> linear domain.\n-/\n"
             "namespace NessaiVerif.Gen.Trapezoid\nopen NessaiVerif NessaiVerif.Quad\n\n"
-            "variable {K : Type} [Add K] [Sub K] [Mul K] [Div K] [OfNat K 0] [OfNat K 1]\n\n"
+            "variable {K : Type} [Add K] [Sub K] [Mul K] [Div K] [Neg K] [OfNat K 0] [OfNat K 1] [NatCast K]\n\n"
             + "\n".join(parts) + "\nend NessaiVerif.Gen.Trapezoid\n")
     rewritten = py2lean.write_if_changed(core.LEAN / "NessaiVerif" / "Gen" / "Trapezoid.lean", text)
     ctx.extra["generated"].update(dict(infos, trapezoid_rewritten=rewritten))
